@@ -49,9 +49,89 @@ func (c *Ctx) poolSpec() *Spec {
 			}
 			return ""
 		},
-		Cond:   p.condMentions("connPool.", "pooledConn.", "WebSocketPool.", "param:conn"),
-		Expand: func(*ssa.Function, ssa.CallInstruction) bool { return false },
+		Cond: p.condMentions("connPool.", "pooledConn.", "WebSocketPool.", "param:conn"),
+		Expand: func(callee *ssa.Function, site ssa.CallInstruction) bool {
+			// small unexported predicates on a pooled connection / a pool (`pc.expired(now, timeout)`)
+			if callee.Signature.Recv() == nil || callee.Object() == nil || callee.Object().Exported() {
+				return false
+			}
+			switch QualType(namedOf(callee.Signature.Recv().Type())) {
+			case "loadbalancer.pooledConn", "loadbalancer.connPool":
+				rs := callee.Signature.Results()
+				return rs.Len() == 1 && rs.At(0).Type().String() == "bool"
+			}
+			return false
+		},
 	}
+}
+
+// clockReadUnder: the clock reading(s) a freshness condition depends on — time.Since(x) itself, or the
+// time.Now() whose result is compared — were taken with the lock class held.  A reading taken before
+// the lock was acquired does not count the time spent waiting for it.
+func (c *Ctx) clockReadUnder(it Item, class string) (bool, string) {
+	p := c.P
+	li := p.Locks()
+	var calls []*ssa.Call
+	seen := map[ssa.Value]bool{}
+	var walk func(v ssa.Value, fr *Frame, d int)
+	walk = func(v ssa.Value, fr *Frame, d int) {
+		if v == nil || seen[v] || d > 10 {
+			return
+		}
+		seen[v] = true
+		switch x := v.(type) {
+		case *ssa.Call:
+			switch CalleeName(x) {
+			case "time.Now", "time.Since":
+				calls = append(calls, x)
+				return
+			}
+			for _, a := range x.Call.Args {
+				walk(a, fr, d+1)
+			}
+		case *ssa.BinOp:
+			walk(x.X, fr, d+1)
+			walk(x.Y, fr, d+1)
+		case *ssa.UnOp:
+			walk(x.X, fr, d+1)
+		case *ssa.Convert:
+			walk(x.X, fr, d+1)
+		case *ssa.ChangeType:
+			walk(x.X, fr, d+1)
+		case *ssa.Phi:
+			for _, e := range x.Edges {
+				walk(e, fr, d+1)
+			}
+		case *ssa.Parameter:
+			if fr != nil && fr.Parent != nil {
+				for j, pm := range fr.Fn.Params {
+					if pm == x && j < len(fr.Args) {
+						walk(fr.Args[j], fr.Parent, d+1)
+					}
+				}
+			}
+		}
+	}
+	cond, fr := it.Cond, it.CondFrame
+	if cond == nil {
+		if ifi, ok := it.Instr.(*ssa.If); ok {
+			cond, fr = ifi.Cond, it.Frame
+		}
+	}
+	if fr == nil {
+		fr = it.Frame
+	}
+	walk(cond, fr, 0)
+	if len(calls) == 0 {
+		return false, "no clock reading found in the freshness test"
+	}
+	for _, call := range calls {
+		fl := li.Fns[call.Parent()]
+		if fl == nil || fl.Must[call].HoldsClass(class) == 0 {
+			return false, "the clock is read at " + p.InstrPos(call) + ", before " + class + " is held: the time spent waiting for the lock is not counted, so a connection that went stale meanwhile is judged fresh"
+		}
+	}
+	return true, ""
 }
 
 func checkC20(c *Ctx) {
@@ -124,9 +204,16 @@ func checkC20(c *Ctx) {
 					return "undecided: unexpected unlock"
 				}
 			}
-			fr, _, ok := c.findRel(t, "since(", poolT+"idleTimeout", pop, -1)
+			fr, fi, ok := c.findRel(t, "since(", poolT+"idleTimeout", pop, -1)
+			if !ok {
+				// the same test written as now.Sub(lastUsed) > timeout
+				fr, fi, ok = c.findRel(t, "sub(now,", poolT+"idleTimeout", pop, -1)
+			}
 			if !ok {
 				return "connection returned without checking its idle time"
+			}
+			if live, why := c.clockReadUnder(t.Items[fi], poolT+"mu"); !live {
+				return why
 			}
 			if !(fr.Lo == negInf && fr.Hi == 0) {
 				if fr.Lo == 1 && fr.Hi == posInf {
@@ -140,7 +227,11 @@ func checkC20(c *Ctx) {
 			// stale ones seen on the way were closed
 			for i, it := range t.Items[:pop] {
 				if _, isIf := it.Instr.(*ssa.If); isIf {
-					if o, ok := c.condRel(it).Orient("since(", poolT+"idleTimeout"); ok && o.Lo == 1 {
+					o, ok := c.condRel(it).Orient("since(", poolT+"idleTimeout")
+					if !ok {
+						o, ok = c.condRel(it).Orient("sub(now,", poolT+"idleTimeout")
+					}
+					if ok && o.Lo == 1 {
 						closed := false
 						for _, jt := range t.Items[i:] {
 							if strings.HasPrefix(jt.Label, "close(") {
@@ -436,7 +527,8 @@ func checkC19(c *Ctx) {
 	c.poolShutdown()
 	// Stop takes the pool locks: they must be ordered consistently everywhere, or Stop can deadlock
 	// against a cleanup tick
-	lockOrder(c, "WebSocketPool.mu", "connPool.mu", "LoadBalancer.mutex")
+	// … and the metrics lock: a probe goroutine Stop joins has to publish its result under it
+	lockOrder(c, "WebSocketPool.mu", "connPool.mu", "LoadBalancer.mutex", "metrics.Metrics.mutex")
 	lockDiscipline(c, func(k string) bool {
 		return k == "loadbalancer.LoadBalancer.ctx" || k == "loadbalancer.LoadBalancer.cancel"
 	})
